@@ -68,9 +68,12 @@ def build_and_validate_headers(headers: Iterable[Tuple[bytes, bytes]]) -> List[T
     # Validates that the header name and value are bytes
     validated_headers: List[Tuple[bytes, bytes]] = []
     for name, value in headers:
-        if name[0] == b":"[0]:
+        # The name as it would be sent, i.e. without the surrounding
+        # whitespace, must be neither a pseudo header nor empty
+        validated_name = validate_header_part(name)
+        if validated_name[:1] in {b"", b":"}:
             raise ValueError("Pseudo headers are not valid")
-        validated_headers.append((validate_header_part(name), validate_header_part(value)))
+        validated_headers.append((validated_name, validate_header_part(value)))
     return validated_headers
 
 
